@@ -444,6 +444,7 @@ func (t *WeightedMerkleTrie) RollbackTrie(node Node) {
 		batcher.Commit(false) //nolint:errcheck
 	}
 	t.created = nil
+	t.tempDeleted = nil
 	clear(t.deleted)
 }
 
